@@ -69,6 +69,8 @@ func configsFor(part string, thorough bool) []*xcfg {
 				Script: []string{"T1", "H1", "P1", "P2", "H1"}},
 			{Name: "dev-snapshot", Voters: v3, Fifo: true, MaxDev: pick(2, 3), MaxTerm: 6, MaxIndex: 10, Timeouts: 1, Proposals: 1, Crashes: 1, MidCrashes: 1, Snapshots: 1, Drops: 2, Reports: 1,
 				Script: []string{"T1", "H1", "P1", "S1", "P2", "H1", "P1", "H1"}},
+			{Name: "dev-partition", Voters: v3, Fifo: true, MaxDev: pick(2, 3), MaxTerm: 7, MaxIndex: 10, Timeouts: 2, Proposals: 1, Partitions: 2, Crashes: 1,
+				Script: []string{"T1", "H1", "P1", "T2", "H2", "P2", "H2", "P1", "H1", "T3", "H3", "P3", "H3"}},
 			{Name: "dev-leaderchange", Voters: v3, Fifo: true, MaxDev: pick(2, 3), MaxTerm: 7, MaxIndex: 10, Timeouts: 2, Proposals: 1, Crashes: 1, MidCrashes: 1, Drops: 3, Transfers: 1,
 				Script: []string{"T1", "H1", "P1", "T2", "H2", "P2", "H2"}},
 		}
@@ -86,6 +88,8 @@ func configsFor(part string, thorough bool) []*xcfg {
 			{Name: "2v", Voters: []uint64{1, 2}, Fifo: true, MaxTerm: 4, MaxIndex: 5, Timeouts: 3, Proposals: 1, Crashes: 1, Drops: 1},
 			{Name: "5v-dev", Voters: []uint64{1, 2, 3, 4, 5}, Fifo: true, MaxDev: 2, MaxTerm: 6, MaxIndex: 8, Timeouts: pick(2, 3), Crashes: 1, Drops: pick(2, 3), Proposals: pick(0, 1),
 				Script: pickS([]string{"T1", "P1", "T5"}, []string{"T1", "H1", "P1", "T5", "H5"})},
+			{Name: "3v-partition-dev", Voters: v3, Fifo: true, CheckQuorum: true, MaxDev: pick(2, 3), MaxTerm: 7, MaxIndex: 9, Timeouts: 2, Partitions: 2, Leases: 1, CheckQuorums: 1, Proposals: 1,
+				Script: []string{"T1", "H1", "P1", "T2", "H2", "T3", "H3", "P3"}},
 			{Name: "3v-transfer-dev", Voters: v3, Fifo: true, MaxDev: pick(2, 3), MaxTerm: 6, MaxIndex: 8, Timeouts: 2, Crashes: 1, Drops: 2, Transfers: 1, Proposals: 1, CheckQuorums: 1,
 				Script: []string{"T1", "H1", "L1>2", "P1"}},
 		}
@@ -95,6 +99,10 @@ func configsFor(part string, thorough bool) []*xcfg {
 			{Name: "warm-reads-net", Voters: v3, Fifo: true, WarmLeader: true, MaxTerm: 3, MaxIndex: 5, Reads: 2, Heartbeats: 1, Dups: 1, Reorders: 1, Drops: 1},
 			{Name: "reads-deposed-dev", Voters: v3, Fifo: true, MaxDev: pick(2, 3), MaxTerm: 6, MaxIndex: 9, Reads: 2, Timeouts: 2, Proposals: 1, Heartbeats: 1, Dups: 1, Reorders: 1, Drops: 3,
 				Script: []string{"T1", "H1", "P1", "R1", "H1", "R2", "P2", "R3", "H1"}},
+			{Name: "reads-partitioned-old-leader-dev", Voters: v3, NonVotings: []uint64{4}, Fifo: true, MaxDev: pick(2, 3), MaxTerm: 6, MaxIndex: 10, Reads: 1, Partitions: 2, Heartbeats: 1, Dups: 1, Timeouts: 1,
+				Script: []string{"T1", "H1", "P1", "T2", "H2", "P2", "H2", "R1", "H1", "R4", "H1", "H1"}},
+			{Name: "reads-5v-partitioned-dev", Voters: []uint64{1, 2, 3, 4, 5}, Fifo: true, MaxDev: 2, MaxTerm: 6, MaxIndex: 10, Reads: 1, Partitions: 1, Heartbeats: 2, Dups: 1,
+				Script: []string{"T1", "H1", "P1", "T3", "H3", "P3", "H3", "R1", "H1", "R2", "H1", "H1"}},
 			{Name: "reads-nonvoting-dev", Voters: v3, NonVotings: []uint64{4}, Fifo: true, MaxDev: pick(2, 3), MaxTerm: 5, MaxIndex: 8, Reads: 2, Timeouts: 1, Proposals: 1, Heartbeats: 1, Dups: 1, Drops: 2,
 				Script: []string{"T1", "H1", "P1", "R4", "H1", "R4", "R1"}},
 			{Name: "reads-newleader-dev", Voters: v3, Fifo: true, MaxDev: pick(2, 3), MaxTerm: 6, MaxIndex: 9, Reads: 2, Timeouts: 1, Proposals: 1, Heartbeats: 1, Drops: 3,
